@@ -234,4 +234,47 @@ theorem constOK_of_const (cks : List CK) (ins : Ins) (rs : List Range)
     have : off + i < w := by omega
     simp [this]
 
+/-! ### isNoOp -/
+
+theorem noOpGo_tiles (rs : List Range) (off fin : Nat) (h : noOpGo rs off = some fin) :
+    tiles rs off = true ∧ fin = off + (rs.map (·.subwidth)).sum := by
+  induction rs generalizing off with
+  | nil => simp [noOpGo] at h; simp [tiles, h]
+  | cons r rs ih =>
+    unfold noOpGo at h
+    cases hs : r.src with
+    | input idx o =>
+      simp only [hs] at h
+      by_cases hc : (idx == 0 && o == off) = true
+      · simp only [hc, if_true] at h
+        simp only [Bool.and_eq_true, beq_iff_eq] at hc
+        obtain ⟨h1, h2⟩ := ih _ h
+        obtain ⟨rfl, rfl⟩ := hc
+        refine ⟨by simp [tiles, hs, h1], ?_⟩
+        simp only [List.map_cons, List.sum_cons]; omega
+      · simp [hc] at h
+    | zero => simp [hs] at h
+    | one => simp [hs] at h
+    | undef => simp [hs] at h
+
+theorem evalRewire_tiles_rest (rs : List Range) (v : BV4) (rest : Ins) (off : Nat) (ht : tiles rs off = true) :
+    evalRewire rs (some v :: rest) = evalRewire rs [some v] := by
+  induction rs generalizing off with
+  | nil => rfl
+  | cons r rs ih =>
+    simp only [tiles, Bool.and_eq_true, beq_iff_eq] at ht
+    rw [evalRewire_cons, evalRewire_cons, ih _ ht.2]
+    congr 1
+    simp [evalRange, ht.1, inBit]
+
+/-- **`removeNoOps` for rewire nodes**: when `isNoOp()` answers true, the node's value is the value at its input 0 (of the driver's
+    width `w`), so bypassing it changes nothing — for every operation, all four-state values, any further inputs. -/
+theorem rewireIsNoOp_sound (nin w : Nat) (sameKind : Bool) (rs : List Range) (v : BV4) (rest : Ins) (hv : v.length = w)
+    (h : rewireIsNoOp nin (some w) sameKind rs = true) : evalRewire rs (some v :: rest) = v := by
+  simp only [rewireIsNoOp, Bool.and_eq_true, beq_iff_eq] at h
+  obtain ⟨_, ⟨_, hsum⟩, hgo⟩ := h
+  obtain ⟨ht, _⟩ := noOpGo_tiles rs 0 w hgo
+  rw [evalRewire_tiles_rest rs v rest 0 ht]
+  exact noopRewire_sound rs v ht (by rw [hsum, hv])
+
 end Gatery.C01
